@@ -81,7 +81,8 @@ Proof.
     exists px, py, p, q. unfold hunk_at. repeat split; try assumption; lia.
   - destruct W as (p & q & A1 & A2 & A3 & A4 & A5 & A6 & A7 & A8 & A9 & A10 & A11 & A12 & W).
     destruct (IH _ _ _ _ W) as (px' & py' & p' & q' & B1 & B2 & B3 & B4 & B5 & B6 & B7 & B8).
-    exists px', py', p', q'. repeat split; try assumption; lia.
+    exists px', py', p', q'. split; [lia|]. split; [lia|]. split; [assumption|]. split; [assumption|].
+    split; [assumption|]. split; [assumption|]. split; assumption.
 Qed.
 
 Lemma start_pos_pos_of_inv p c s : start_pos (pos_of p c) c = Some s -> s = p.
@@ -127,7 +128,7 @@ Qed.
    lines — a shorter run would have kept the two changes in one hunk ([inner_ok]). *)
 Theorem hunks_separated : forall x y hs l1 h1 h2 l2,
   diff_hunks x y = Ok hs -> hs = l1 ++ h1 :: h2 :: l2 ->
-  exists lead1 inners1 lead2 inners2 trail2 p1 q1 p2 q2,
+  exists lead1 inners1 inners2 trail2 p1 q1 p2 q2,
     runs (body h1) = lead1 :: inners1 ++ [ctxC] /\
     runs (body h2) = ctxC :: inners2 ++ [trail2] /\
     hunk_at x y h1 p1 q1 /\ hunk_at x y h2 p2 q2 /\
